@@ -60,6 +60,8 @@ TEMPLATES = {
     'req_inline_off': (["print('r{k}' + (mark({k}) or ''))  # xdoctest: -REQUIRES(module:%s)" % MISSING], ["r{k}"], ('out', "r{k}\n", 'lift_requires')),
     # two conditions, the first met, the second not
     'req_on2':      (["# xdoctest: +REQUIRES(module:os, module:%s)" % MISSING], None, ('dir', 'REQUIRES', True)),
+    # a want that reaches back over everything printed without a want since the last CHECKED want (even across an ignored want)
+    'reach_back':   (["print('p{k}' + (mark({k}) or ''))"], ["{acc}p{k}"], ('out', "p{k}\n")),
     # a directive that cannot be applied: the doctest fails at that part, the statement does not run
     'bad_directive': (["w{k} = mark({k})  # xdoctest: +REQUIRES(bogus-condition-{k})"], None, ('bad_directive',)),
     # a helper defined by one part (longer than the part that calls it) and called by a later one
@@ -81,6 +83,7 @@ def build(seq):
     table = {}
     shared = 'module'
     skip = requires = False
+    acc = ''
     for k, name in enumerate(seq):
         src, want, beh = TEMPLATES[name]
         if beh[0] == 'dir':
@@ -89,7 +92,7 @@ def build(seq):
             else:
                 requires = beh[2]
         runs = not skip and not (requires and name != 'req_inline_off') and name != 'skip_inline'
-        fmt = dict(k=k, v=str(k + 100), shared=shared)
+        fmt = dict(k=k, v=str(k + 100), shared=shared, acc=acc)
         for ln in src:
             lines.append(('>>> ' if ln is src[0] else '... ') + ln.format(**fmt))
         for ln in (want or []):
@@ -97,6 +100,10 @@ def build(seq):
         table[k] = (name, tuple(x.format(**fmt) if isinstance(x, str) else x for x in beh), src[0].format(**fmt))
         if runs and beh[0] == 'rebind':
             shared = beh[1].format(**fmt)
+        if runs and name == 'print_nowant':
+            acc += beh[1].format(**fmt)
+        elif want is not None and name != 'ignore_want':
+            acc = ''
     return '\n'.join(lines) + '\n', table
 
 
